@@ -1,11 +1,189 @@
-(* Props/C19.v -- property C19 (provisional instances on the generated parameters; the general theorems are being added) *)
+(* Props/C19.v -- property C19: "After any sequence of training epochs the stored average strategy
+   of an information set equals the average of the per-epoch strategies weighted by
+   (epoch+1)^gamma; accumulated regret is a combination of the per-epoch regrets with weights in
+   (0,1] that do not decrease with recency and are exactly one once the discount phase is over;
+   the traversing player alternates every epoch starting with the first player."
+   All equalities over Q are Qeq (==).  Statements use only Model/Discount.v and Spec/SpecDiscount.v. *)
 From Coq Require Import ZArith QArith List.
-From RP Require Import Gen.GenLib Gen.GenDiscount Model.Discount.
+From RP Require Import Gen.GenLib Gen.GenDiscount Model.Discount Spec.SpecDiscount.
+From RP Require Import Proofs.C19_Policy Proofs.C19_Regret Proofs.C19_Walker Proofs.C19_Examples.
 Import ListNotations.
 Open Scope Q_scope.
-Theorem C19_instance :
-  gamma_is_integral = true /\
-  policy_run 0 7 [1#2; 1#4; 1] == sum_policy 0 2 [1#2; 1#4; 1] /\
-  map walker [0; 1; 2; 3]%Z = [0; 1; 0; 1]%Z.
-Proof. split; [reflexivity|]. split; [vm_compute; reflexivity | reflexivity]. Qed.
-Print Assumptions C19_instance.
+
+(* the model's integral exponent is only meaningful if DISCOUNT_GAMMA is an integer:
+   this fails (and with it the file) if the generated constant becomes non-integral *)
+Example gamma_integral : gamma_is_integral = true.
+Proof. reflexivity. Qed.
+Print Assumptions gamma_integral.
+
+Theorem C19_gamma_positive : (0 < gamma_int)%Z.
+Proof. exact gamma_int_pos. Qed.
+Print Assumptions C19_gamma_positive.
+
+(* ---------------- stored average strategy ---------------- *)
+
+(* epochs t0, t0+1, ..., t0+n-1: the initial value keeps weight (t0/(t0+n))^gamma and the value fed
+   in at epoch t0+i gets weight ((t0+i+1)/(t0+n))^gamma  (sum_policy t0 T with T+1 = t0+n) *)
+Theorem C19_policy_general : forall (t0 : Z) (acc : Q) (ps : list Q),
+  (0 <= t0)%Z -> (ps <> [] \/ 0 < t0)%Z ->
+  policy_run t0 acc ps ==
+    acc * (inject_Z t0 / inject_Z (t0 + Z.of_nat (length ps))) ^ gamma_int
+    + sum_policy t0 (t0 + Z.of_nat (length ps) - 1) ps.
+Proof. exact policy_general. Qed.
+Print Assumptions C19_policy_general.
+
+Example C19_policy_general_hyp : (0 <= 3)%Z /\ ([1#2; 1#3] <> [] \/ (0 < 3)%Z).
+Proof. exact ex_policy_general_hyp. Qed.
+Example C19_policy_general_numbers :
+  policy_run 3 7 [1#2; 1#3] == 7 * (3/5)^2 + (1#2) * (4/5)^2 + (1#3) * (5/5)^2.
+Proof. exact ex_policy_general_numbers. Qed.
+
+(* the case excluded above (no update, t0 = 0) *)
+Theorem C19_policy_no_update : forall (t0 : Z) (acc : Q), policy_run t0 acc [] = acc.
+Proof. exact policy_run_nil. Qed.
+Print Assumptions C19_policy_no_update.
+
+Theorem C19_policy_closed_form : forall (acc : Q) (ps : list Q), ps <> [] ->
+  policy_run 0 acc ps == sum_policy 0 (Z.of_nat (length ps) - 1) ps.
+Proof. exact policy_closed_form. Qed.
+Print Assumptions C19_policy_closed_form.
+
+Example C19_policy_closed_form_hyp : [1#2; 1#4; 1] <> ([] : list Q).
+Proof. exact ex_policy_closed_form_hyp. Qed.
+Example C19_policy_numbers :
+  policy_run 0 7 [1#2; 1#4; 1] == (1#2) * (1/3)^2 + (1#4) * (2/3)^2 + 1.
+Proof. exact ex_policy_numbers. Qed.
+
+(* stored * (T+1)^gamma = sum_s (s+1)^gamma p_s, T + 1 = number of epochs *)
+Theorem C19_policy_unnormalised : forall (acc : Q) (ps : list Q), ps <> [] ->
+  policy_run 0 acc ps * inject_Z (Z.of_nat (length ps)) ^ gamma_int == pow_weighted_sum 0 ps.
+Proof. exact policy_unnormalised. Qed.
+Print Assumptions C19_policy_unnormalised.
+
+(* actions updated in lock step from epoch 0, pss = per-action input sequences of length n >= 1:
+   the normalised stored strategy is the (s+1)^gamma-weighted mean of the per-epoch strategies
+   (colsum n pss is the list of the per-epoch totals sum_b p_s(b)) *)
+Theorem C19_policy_weighted_mean : forall (n : nat) (pss : list (list Q)) (i : nat),
+  (1 <= n)%nat -> Forall (fun ps => length ps = n) pss -> (i < length pss)%nat ->
+  ~ pow_weighted_sum 0 (colsum n pss) == 0 ->
+  let stored := map (policy_run 0 0) pss in
+  ~ sumQ stored == 0 /\
+  nth i stored 0 / sumQ stored ==
+    pow_weighted_sum 0 (nth i pss []) / pow_weighted_sum 0 (colsum n pss).
+Proof. exact policy_weighted_mean. Qed.
+Print Assumptions C19_policy_weighted_mean.
+
+Theorem C19_policy_weighted_mean_denominator : forall (n : nat) (pss : list (list Q)) (s : Z),
+  Forall (fun ps => length ps = n) pss ->
+  pow_weighted_sum s (colsum n pss) == sumQ (map (pow_weighted_sum s) pss).
+Proof. exact pow_weighted_sum_colsum. Qed.
+Print Assumptions C19_policy_weighted_mean_denominator.
+
+Example C19_policy_weighted_mean_hyp :
+  (1 <= 3)%nat /\ Forall (fun ps => length ps = 3%nat) ex_pss /\ (0 < length ex_pss)%nat /\
+  ~ pow_weighted_sum 0 (colsum 3 ex_pss) == 0.
+Proof. exact ex_weighted_mean_hyp. Qed.
+Example C19_policy_weighted_mean_numbers :
+  let stored := map (policy_run 0 0) ex_pss in
+  nth 0 stored 0 / sumQ stored == 3 # 4 /\ nth 1 stored 0 / sumQ stored == 1 # 4 /\
+  pow_weighted_sum 0 (nth 0 ex_pss []) / pow_weighted_sum 0 (colsum 3 ex_pss) == 3 # 4.
+Proof. exact ex_weighted_mean_numbers. Qed.
+
+(* ---------------- accumulated regret ---------------- *)
+
+Theorem C19_regret_general : forall (acc : Q) (drs : list (Q * Q)),
+  regret_run acc drs == acc * prodQ (map fst drs) + sum_regret drs.
+Proof. intros acc drs. exact (regret_general drs acc). Qed.
+Print Assumptions C19_regret_general.
+
+Example C19_regret_numbers :
+  regret_run 10 ex_drs == 21 # 8 /\
+  10 * prodQ (map fst ex_drs) + sum_regret ex_drs == 21 # 8 /\
+  sum_weighted ex_drs == 5 * (3#8) + (-3 # 1) * (3#4) + 2 * 1 + 1 * 1.
+Proof. exact ex_regret_numbers. Qed.
+
+(* weight drs s = product of the factors applied after position s; P = position from which the
+   discount phase is over *)
+Theorem C19_regret_weights : forall (drs : list (Q * Q)) (P : nat),
+  (forall u, (1 <= u < length drs)%nat -> 0 < factor_at drs u /\ factor_at drs u <= 1) ->
+  sum_regret drs == sum_weighted drs /\
+  (forall s, 0 < weight drs s /\ weight drs s <= 1) /\
+  (forall s, weight drs s <= weight drs (S s)) /\
+  ((forall u, (P <= u < length drs)%nat -> factor_at drs u == 1) ->
+   forall s, (P <= S s)%nat -> weight drs s == 1).
+Proof. exact regret_weights. Qed.
+Print Assumptions C19_regret_weights.
+
+(* the decomposition itself needs no hypothesis *)
+Theorem C19_regret_weighted_sum : forall (acc : Q) (drs : list (Q * Q)),
+  regret_run acc drs == acc * prodQ (map fst drs) + sum_weighted drs.
+Proof. exact regret_weighted. Qed.
+Print Assumptions C19_regret_weighted_sum.
+
+Example C19_regret_weights_hyp :
+  (forall u, (1 <= u < length ex_drs)%nat -> 0 < factor_at ex_drs u /\ factor_at ex_drs u <= 1) /\
+  (forall u, (3 <= u < length ex_drs)%nat -> factor_at ex_drs u == 1).
+Proof. exact ex_regret_weights_hyp. Qed.
+Example C19_regret_weights_values : map (weight ex_drs) [0; 1; 2; 3]%nat = [3#8; 3#4; 1; 1].
+Proof. exact ex_regret_weights_values. Qed.
+
+Theorem C19_in_discount_phase_false : forall u : Z,
+  in_discount_phase u = false <-> (CFR_DISCOUNT_PHASE <= u)%Z.
+Proof. exact in_discount_phase_false. Qed.
+Print Assumptions C19_in_discount_phase_false.
+
+(* sequences starting at epoch 0 (position u = epoch u): if the factor is one at every epoch
+   outside the discount phase, every regret whose successor epoch is outside the phase
+   (s + 1 >= CFR_DISCOUNT_PHASE) is kept with weight exactly one *)
+Theorem C19_regret_phase : forall drs : list (Q * Q),
+  (forall u, (u < length drs)%nat -> in_discount_phase (Z.of_nat u) = false -> factor_at drs u == 1) ->
+  forall s, (s < length drs)%nat -> in_discount_phase (Z.of_nat (S s)) = false -> weight drs s == 1.
+Proof. exact regret_phase. Qed.
+Print Assumptions C19_regret_phase.
+
+Example C19_regret_phase_hyp :
+  (forall u, (u < length ex_long)%nat -> in_discount_phase (Z.of_nat u) = false ->
+             factor_at ex_long u == 1) /\
+  (exists s, (s < length ex_long)%nat /\ in_discount_phase (Z.of_nat (S s)) = false) /\
+  (forall u, (1 <= u < length ex_long)%nat -> 0 < factor_at ex_long u /\ factor_at ex_long u <= 1).
+Proof. exact ex_regret_phase_hyp. Qed.
+Example C19_regret_phase_numbers :
+  weight ex_long (Z.to_nat CFR_DISCOUNT_PHASE - 1) == 1 /\
+  weight ex_long (Z.to_nat CFR_DISCOUNT_PHASE - 2) == 1 # 2 /\
+  weight ex_long (Z.to_nat CFR_DISCOUNT_PHASE - 4) == 1 # 8.
+Proof. exact ex_regret_phase_numbers. Qed.
+
+(* with all factors one the accumulated regret is the plain running sum *)
+Theorem C19_regret_undiscounted : forall (drs : list (Q * Q)) (acc : Q),
+  Forall (fun dr => fst dr == 1) drs -> regret_run acc drs == acc + sumQ (map snd drs).
+Proof. exact regret_run_undiscounted. Qed.
+Print Assumptions C19_regret_undiscounted.
+
+(* the policy discount itself lies in (0,1] from epoch 1 on and is 0 at epoch 0 *)
+Theorem C19_policy_discount_range : forall t : Z, (0 < t)%Z ->
+  0 < policy_discount t /\ policy_discount t <= 1.
+Proof. exact policy_discount_range. Qed.
+Print Assumptions C19_policy_discount_range.
+Theorem C19_policy_discount_0 : policy_discount 0 == 0.
+Proof. exact policy_discount_0. Qed.
+Print Assumptions C19_policy_discount_0.
+
+(* the hypothesis 0 < d <= 1 is what carries the weight claims *)
+Example C19_mutant_refuted :
+  let drs := [(1, 1); (2, 1); (1, 1)] in
+  ~ weight drs 0 <= 1 /\ ~ weight drs 0 <= weight drs 1.
+Proof. exact ex_factor_above_one_refutes_bounds. Qed.
+Print Assumptions C19_mutant_refuted.
+Example C19_mutant_zero_factor : ~ 0 < weight [(1, 1); (0, 1); (1, 1)] 0.
+Proof. exact ex_factor_zero_refutes_positivity. Qed.
+
+(* ---------------- walker ---------------- *)
+
+Theorem C19_walker :
+  walker 0 = 0%Z /\
+  forall k, (0 <= k)%Z -> walker (k + 1) = (1 - walker k)%Z /\ (walker k = 0 \/ walker k = 1)%Z.
+Proof. exact walker_spec. Qed.
+Print Assumptions C19_walker.
+
+Example C19_walker_values : map walker [0; 1; 2; 3; 4; 5]%Z = [0; 1; 0; 1; 0; 1]%Z.
+Proof. exact ex_walker. Qed.
